@@ -1,3 +1,23 @@
--- Root of the `Shp` library: everything that must build.
+-- Root of the `Shp` library: everything that must build (`lake build Shp` checks every property
+-- theorem; `tools/check.py` builds the module of one property and audits its axioms).
 import Shp.Model.Reader
+import Shp.Props.C01
+import Shp.Props.C02b
+import Shp.Props.C03
+import Shp.Props.C04
+import Shp.Props.C05
+import Shp.Props.C06
+import Shp.Props.C07
+import Shp.Props.C08
+import Shp.Props.C09
+import Shp.Props.C10
+import Shp.Props.C11b
+import Shp.Props.C12
+import Shp.Props.C13b
+import Shp.Props.C14
+import Shp.Props.C15b
+import Shp.Props.C16
+import Shp.Props.C17
+import Shp.Props.C18
 import Shp.Props.C19
+import Shp.Props.C20b
